@@ -12,10 +12,13 @@ import (
 	"bytes"
 	"context"
 	"crypto"
+	"crypto/x509"
 	"encoding/json"
+	"encoding/pem"
 	"fmt"
 	"io"
 	"os"
+	"path/filepath"
 	"runtime/debug"
 	"strings"
 	"sync"
@@ -128,7 +131,7 @@ func main() {
 	k := 0
 	for _, spec := range lib.KeySpecs {
 		for _, format := range lib.Formats {
-			for _, sk := range []string{"local", "plugin-raw", "plugin-envelope"} {
+			for _, sk := range []string{"local", "local-from-files", "plugin-raw", "plugin-envelope"} {
 				for _, blob := range []bool{false, true} {
 					reps := r.N(6, 120)
 					if strings.HasPrefix(spec, "RSA-4") || strings.HasPrefix(spec, "RSA-3") {
@@ -157,6 +160,25 @@ func main() {
 			gs, err := signer.NewGenericSigner(ent.Key, ent.Chain())
 			if err != nil {
 				panic(err)
+			}
+			sgn = gs
+		case "local-from-files": // the key and the chain (leaf first) as PEM files, the way the CLI hands them over
+			kd := lib.TempDir("c07k")
+			defer os.RemoveAll(kd)
+			der, err := x509.MarshalPKCS8PrivateKey(ent.Key)
+			if err != nil {
+				panic(err)
+			}
+			var chainPEM []byte
+			for _, crt := range ent.Chain() {
+				chainPEM = append(chainPEM, pem.EncodeToMemory(&pem.Block{Type: "CERTIFICATE", Bytes: crt.Raw})...)
+			}
+			os.WriteFile(filepath.Join(kd, "k.key"), pem.EncodeToMemory(&pem.Block{Type: "PRIVATE KEY", Bytes: der}), 0o600)
+			os.WriteFile(filepath.Join(kd, "k.crt"), chainPEM, 0o644)
+			gs, err := signer.NewGenericSignerFromFiles(filepath.Join(kd, "k.key"), filepath.Join(kd, "k.crt"))
+			if err != nil {
+				r.Violation(map[string]string{"kind": "sign-failed", "signer": c.SignerKind, "spec": c.Spec}, fmt.Sprintf("%s: a signer cannot be built from the PEM files of a valid key and chain: %v", id, err), nil)
+				return
 			}
 			sgn = gs
 		default:
@@ -215,7 +237,7 @@ func main() {
 			if st.Before(t0.Add(-2*time.Second)) || st.After(time.Now().Add(2*time.Second)) {
 				r.Violation(sig("signing-time"), fmt.Sprintf("%s: signing time %v is not the time of signing", id, st), wit)
 			}
-			if c.Agent != "" && c.SignerKind == "local" && si.UnsignedAttributes.SigningAgent != c.Agent {
+			if c.Agent != "" && strings.HasPrefix(c.SignerKind, "local") && si.UnsignedAttributes.SigningAgent != c.Agent {
 				r.Violation(sig("agent"), fmt.Sprintf("%s: signing agent %q, requested %q", id, si.UnsignedAttributes.SigningAgent, c.Agent), wit)
 			}
 		}
